@@ -127,6 +127,23 @@ Theorem c12_excluded_edits_invisible : forall matches flt p v1 v2, prune matches
 Proof. exact excluded_edits_invisible. Qed.
 Print Assumptions c12_excluded_edits_invisible.
 
+(* With patterns: equal tokens <-> the pruned trees agree in everything beneath the root (same_beneath: the record of
+   the root directory itself is not part of a filtered signature). *)
+Theorem c12_filtered_tokens_injective : forall matches flt p v1 v2, flt <> [] ->
+  wf_v (prune matches flt v1) -> wf_v (prune matches flt v2) ->
+  (tree_tokens matches flt p v1 = tree_tokens matches flt p v2 <->
+   same_beneath (canon (prune matches flt v1)) (canon (prune matches flt v2))).
+Proof. exact filtered_tokens_injective. Qed.
+Print Assumptions c12_filtered_tokens_injective.
+
+(* Hence any difference among the NON-excluded entries of the directory, at any depth, changes the filtered tokens. *)
+Theorem c12_filtered_sig_detects : forall matches flt p v v' i cs i' cs', flt <> [] ->
+  prune matches flt v = VNode i cs -> prune matches flt v' = VNode i' cs' ->
+  wf_v (VNode i cs) -> wf_v (VNode i' cs') -> sorted_v (VNode i cs) -> sorted_v (VNode i' cs') ->
+  cs <> cs' -> tree_tokens matches flt p v <> tree_tokens matches flt p v'.
+Proof. exact filtered_sig_detects. Qed.
+Print Assumptions c12_filtered_sig_detects.
+
 (* REFUTED clause (known finding filtered-listing-stale): with patterns a non-excluded entry added while the directory's
    own record stays the same is seen by neither command (the stored filtered listing is reused); without patterns both
    see it. *)
